@@ -67,6 +67,25 @@ package z80
 //@   ensures im0 != nil && len(im0.data) >= 1 && im0.end == im0.start+uint16(len(im0.data)-1)
 //@   ensures im0.start == pc && len(im0.data) == len(d)
 
+// ---------------------------------------------------------------- flag accessors (flag.go)
+
+//@ func (gpr GPR) GetFlag(f Flag) (r bool)
+//@   layer P
+//@   props C16
+//@   ensures r == (gpr.AF.Lo&uint8(f) != 0)
+
+//@ func (gpr *GPR) SetFlag(f Flag)
+//@   layer P
+//@   props C16
+//@   ensures gpr.AF.Lo == old(gpr.AF.Lo)|uint8(f)
+//@   modifies gpr.AF.Lo
+
+//@ func (gpr *GPR) ResetFlag(f Flag)
+//@   layer P
+//@   props C16
+//@   ensures gpr.AF.Lo == old(gpr.AF.Lo)&^uint8(f)
+//@   modifies gpr.AF.Lo
+
 // ---------------------------------------------------------------- pure helpers (cpu.go, z80.go)
 
 //@ func addrOff(addr uint16, off uint8) (r uint16)
@@ -80,10 +99,12 @@ package z80
 //@   ensures h == uint8(v>>8)
 
 //@ func (r Register) U16() (v uint16)
+//@   layer P
 //@   props C16
 //@   ensures v == uint16(r.Hi)<<8|uint16(r.Lo)
 
 //@ func (r *Register) SetU16(v uint16)
+//@   layer P
 //@   props C16
 //@   ensures r.Hi == uint8(v>>8)
 //@   ensures r.Lo == uint8(v)
